@@ -234,6 +234,40 @@ def main():
                                             what="wrapper accepted a %s array for the %s argument %s of %s but the caller's array "
                                                  "does not hold the result of the call" % (kind, a.role, nm, name_of(spec)),
                                             replay=dict(replay, threads=nt, variant=kind, argument=nm)))
+                        # input acceptance: the same call with ONE input array given as a column of a wider table (same
+                        # values, other strides).  Refusal is fine; if the wrapper accepts, every output must be what the
+                        # ordinary call produced (the wrapper's copy-in must honour shape and order of the declaration).
+                        if nt == 1 and (rd % 3 == 0):
+                            outs = [nm for nm, a in val.items() if isinstance(a, kspecs.Buf) and a.role in ("out", "inout")
+                                    and isinstance(conv.get(nm), np.ndarray)]
+                            for nm, a in val.items():
+                                if not (isinstance(a, kspecs.Buf) and a.role == "in" and a.arr.size >= 2 and outs):
+                                    continue
+                                conv2 = {}
+                                for nm2, a2 in val.items():
+                                    if isinstance(a2, kspecs.Buf):
+                                        conv2[nm2] = a2.arr.copy()
+                                    elif isinstance(a2, tuple):
+                                        conv2[nm2] = float(a2[1])
+                                    else:
+                                        conv2[nm2] = int(a2)
+                                wide = np.zeros(a.arr.shape + (2,), a.arr.dtype)
+                                wide[..., 0] = a.arr
+                                conv2[nm] = wide[..., 0]
+                                try:
+                                    w(*[conv2[n] for n in req], **{n: conv2[n] for n in opt})
+                                except Exception:
+                                    count("f2py_input_variants_refused")
+                                    continue
+                                count("f2py_input_variants_accepted")
+                                for on in outs:
+                                    if not np.array_equal(conv2[on], conv[on], equal_nan=(conv[on].dtype.kind == "f")):
+                                        out["violations"].append(dict(
+                                            key="f2py:input-variant-changes-result:%s:%s" % (name_of(spec), nm),
+                                            what="with the input %s of %s given as a strided array (same values) the output %s "
+                                                 "differs from the ordinary call" % (nm, name_of(spec), on),
+                                            replay=dict(replay, threads=nt, argument=nm)))
+                                        break
                         conv = None
                         for p in blocks:
                             libc.free(p)
